@@ -953,6 +953,14 @@ def rule_default_kept(chk, cls):
     seen = set()
     for p_ in PT.enumerate_paths(seg):
         if PT.took(p_, True, 'default is None') is None:
+            # a default was given (or the path does not ask): it is the one recorded, also for a property that exists - the readers of the output files re-create the built-in
+            # tag / pid / gid with the default that was saved
+            st_ = None
+            for e in p_:
+                if e.kind == 'stmt' and isinstance(e.node, ast.Assign) and isinstance(e.node.targets[0], ast.Subscript) and U(e.node.targets[0].value) == 'self.default_values':
+                    st_ = U(PT.resolve(e.node.value, e.env)).replace(' ', '')
+            if st_ is not None and st_ != 'default':
+                bad.append('a default that is given explicitly is replaced by %s' % st_)
             continue
         # what is stored for the property on this path
         stored = None
